@@ -26,6 +26,25 @@ func main() {
 	switch os.Args[1] {
 	case "check":
 		os.Exit(cmdCheck(os.Args[2:]))
+	case "leanwarm":
+		// setup step: run Lean once on every file of lean/index.json (loads Mathlib: minutes on a cold cache) so
+		// that the quick checks find the acceptance stamp of the unchanged file; a changed file is always re-run
+		b, _ := os.ReadFile(filepath.Join(verifDir, "lean", "index.json"))
+		var all []leanEntry
+		json.Unmarshal(b, &all)
+		rc := 0
+		for _, le := range all {
+			obls, _ := leanObligations(le.Prop, "quick", &Program{contracts: map[string]*FuncContract{}})
+			for _, o := range obls {
+				if o.Kind == "lean" {
+					fmt.Printf("  [%s] %s\n", o.Status, o.Name)
+					if o.Status != "proved" {
+						rc = 1
+					}
+				}
+			}
+		}
+		os.Exit(rc)
 	case "replay":
 		if len(os.Args) < 4 {
 			fmt.Fprintln(os.Stderr, "usage: govc replay <pkgpath> <testfile>")
@@ -309,6 +328,14 @@ func cmdCheck(args []string) int {
 		}()
 	}
 	wg.Wait()
+	// inductive lemmas proved in Lean over the contract's transition relation
+	if *only == "" || strings.HasPrefix(*only, "lean") {
+		lo, la := leanObligations(*prop, *tier, prog)
+		obls = append(obls, lo...)
+		for _, a := range la {
+			assumptions[a] = true
+		}
+	}
 
 	// report
 	findings := loadFindings()
@@ -522,7 +549,9 @@ func writeReplay(prop string, o *Obligation, prog *Program) string {
 		}
 		b.WriteString("\n")
 	}
-	tryReplay(o, prog, &b)
+	if o.enc != nil {
+		tryReplay(o, prog, &b)
+	}
 	b.WriteString("\nsolver output:\n")
 	b.WriteString(trimOutN(o.Output, 20000))
 	os.WriteFile(path, []byte(b.String()), 0o644)
